@@ -93,6 +93,11 @@ class Form(object):
         return result_str(call("type_tostring", [call("form_type", [self._h]).h]))
 
 
+def form_of(layout, materialize=False):
+    """Content::form(materialize) as a Form handle"""
+    return Form(_h=call("form", [layout._h], [int(bool(materialize))]).h)
+
+
 def _form_handle(form, what):
     if form is None:
         return None
